@@ -1772,9 +1772,11 @@ int parse_instruction_mips(AsmContext *asm_context, char *instr)
     }
 
     const uint32_t jump_address = operands[0].value & 0x0fffffff;
-    const uint32_t address = operands[0].value & 0xf0000000;
+    // The upper 4 bits of the target come from the address of the delay slot.
+    const uint32_t address = (asm_context->address + 4) & 0xf0000000;
 
-    if ((address & 0xf0000000) != (operands[0].value & 0xf0000000))
+    if (asm_context->pass == 2 &&
+        address != (operands[0].value & 0xf0000000))
     {
       printf("Error: Jump address on wrong page at %s:%d\n",
         asm_context->tokens.filename, asm_context->tokens.line);
